@@ -312,7 +312,7 @@ def render_v2000(m: Mol, rng: random.Random, opts=None):
         # an entry with value 0 states nothing: also for an atom written D or T
         free = [i for i in range(n) if i not in mass]
         dts = [i for i in free if sym_of[i] in ("D", "T")]
-        for i in set(rng.sample(free, min(len(free), 2)) + dts[:2]):
+        for i in sorted(set(rng.sample(free, min(len(free), 2)) + dts[:2])):
             ie.append((i + 1, 0))
     rng.shuffle(ie)
     iso_lines = prop_lines("ISO", ie, rng)
